@@ -331,15 +331,17 @@ func (h *handle) Remove(fd storage.FileDesc) error {
 	if !storage.FileDescOk(fd) {
 		return storage.ErrInvalidFile
 	}
-	ok, code, err := h.event("ldb.remove", 0)
-	if !ok {
-		return err
+	// Not an I/O event: goleveldb removes obsolete files when the last reference to an old
+	// version is released, which may happen in the calling task or in one of goleveldb's own
+	// goroutines depending on real-time scheduling. Counting it would make the event
+	// numbering (crash points, digests) timing dependent. A dead handle still refuses.
+	if h.dead.Load() {
+		return errDead
 	}
 	h.st.mu.Lock()
 	_, exist := h.st.files[pack(fd)]
 	delete(h.st.files, pack(fd))
 	h.st.mu.Unlock()
-	h.after(code)
 	if !exist {
 		return os.ErrNotExist
 	}
